@@ -117,6 +117,8 @@ std::map<IndexCombination4,std::vector<ComplexType> > TwoParticleGFContainer::co
         //    if (comm.rank() == sender) INFO("P" << comm.rank() << " 2pgf " << p << " " << chi.parts[p]->NonResonantTerms.size());
             boost::mpi::broadcast(comm, chi.parts[p]->NonResonantTerms, sender);
             boost::mpi::broadcast(comm, chi.parts[p]->ResonantTerms, sender);
+            // ranks outside the colour now hold the terms too (unless they were purged)
+            if (!clearTerms) chi.parts[p]->Status = TwoParticleGFPart::Computed;
             };
         // the table of values (also for a component without parts)
         std::vector<ComplexType> freq_data;
